@@ -138,7 +138,86 @@ def plan_c15(pid, tier, seed, ncpu):
                 watchdog_s=scale(tier, 600, 3600))
 
 
+def con_jobs(bindir, workdir, known, prop, mode, seed, nshards, programs=0, schedules=0, rounds=0, variant="dbg", watchdog_s=None):
+    jobs = []
+    for s in range(nshards):
+        out = os.path.join(workdir, "con-%s-%s-%d.json" % (variant, mode, s))
+        argv = [os.path.join(bindir, "conmon"), "--prop", prop, "--mode", mode,
+                "--seed", str(seed * 100003 + s * 104729 + hash_str(mode) % 1000),
+                "--out", out, "--known", ",".join(known)]
+        if programs:
+            argv += ["--programs", str(max(1, programs // nshards)), "--schedules", str(schedules)]
+        if rounds:
+            argv += ["--rounds", str(max(1, rounds // nshards))]
+        j = dict(name="con-%s-%s-%d" % (variant, mode, s), argv=argv, out=out, kind="report")
+        if watchdog_s:
+            j["watchdog_s"] = watchdog_s
+        jobs.append(j)
+    return jobs
+
+
+CON_ASSUMPTIONS = COMMON_ASSUMPTIONS + [
+    "schedules are sampled at the granularity of the instrumented switch points (serialized random scheduler: uniform, sticky, PCT-like with 3 change points, "
+    "maintainer-starving, maintainer-parking) and by free-running threads with injected delays; they are not exhausted, and interleavings inside "
+    "DashMap / crossbeam-channel / triomphe are below that granularity",
+    "the per-key history checker applies necessary conditions of linearizability only (unique values make every read identify its write), so it cannot alarm on a correct cache",
+    "wall-clock watchdogs end a run as inconclusive; deadlock and livelock are decided on the scheduler's logical state (no runnable thread / step budget)",
+]
+
+
+def plan_c02(pid, tier, seed, ncpu):
+    progs = scale(tier, 6400, 160000)
+    stress = scale(tier, 1600, 48000)
+
+    def jobs(bindirs, workdir, known):
+        js = con_jobs(bindirs["dbg"], workdir, known, pid, "baton", seed, max(1, ncpu * 3 // 4), programs=progs, schedules=scale(tier, 20, 50))
+        js += con_jobs(bindirs["dbg"], workdir, known, pid, "stress", seed, max(1, ncpu // 4), programs=stress, schedules=scale(tier, 10, 20))
+        return js
+
+    m = 1 if tier == "quick" else 10
+    return dict(variants=["dbg"], jobs=jobs,
+                floors={"overlapping_read_write_pairs": 1000 * m, "runs_with_maintenance_nested_in_an_operation": 100 * m, "distinct_interleavings": 1000 * m,
+                        "gets_judged": 5000 * m, "quiescence_checks": 1000 * m},
+                rule="random small programs (2-4 threads x 1-6 ops over insert/get/contains_key/invalidate/invalidate_all(+clock tick)/sync on 1-3 keys, capacity 1..4/none, "
+                     "ttl/tti/weigher on or off), each run under several seeded schedules of the serialized scheduler and free-running with injected delays (plus larger "
+                     "programs: up to 16 threads x 400 ops); every get is checked against the recorded call/return history: no phantom or future value, no value superseded by "
+                     "an insert/invalidate/effective invalidate_all that completed before the get began, per-reader monotonicity per writer, final state = nothing or a "
+                     "maximal write. Non-trivial: a program with a get overlapping a write of its key or with maintenance nested in an operation; distinct by program "
+                     "fingerprint (distinct interleavings, by trace hash, are reported separately).",
+                assumptions=CON_ASSUMPTIONS, watchdog_s=scale(tier, 900, 7200))
+
+
+def plan_c09(pid, tier, seed, ncpu):
+    def jobs(bindirs, workdir, known):
+        js = con_jobs(bindirs["dbg"], workdir, known, pid, "baton", seed, max(1, ncpu // 4), programs=scale(tier, 1600, 40000), schedules=scale(tier, 20, 40))
+        js += con_jobs(bindirs["dbg"], workdir, known, pid, "park", seed, max(1, ncpu // 2), programs=scale(tier, 320, 8000), schedules=scale(tier, 5, 10))
+        js += con_jobs(bindirs["dbg"], workdir, known, pid, "burst1", seed, 2, rounds=scale(tier, 40, 1000))
+        js += con_jobs(bindirs["dbg"], workdir, known, pid, "burstn", seed, 2, rounds=scale(tier, 12, 200))
+        js += con_jobs(bindirs["dbg"], workdir, known, pid, "stress", seed, 2, programs=scale(tier, 200, 6000), schedules=scale(tier, 5, 10))
+        if tier == "thorough":
+            js += con_jobs(bindirs["rel"], workdir, known, pid, "burst1", seed + 7, 2, rounds=400, variant="rel")
+            js += con_jobs(bindirs["rel"], workdir, known, pid, "burstn", seed + 7, 2, rounds=100, variant="rel")
+        return js
+
+    m = 1 if tier == "quick" else 10
+    return dict(variants=["dbg"] + (["rel"] if tier == "thorough" else []), jobs=jobs,
+                floors={"backoff_events": 100 * m, "maintainer_parks": 100 * m, "bursts_within_sync_interval": 4 * m, "bursts_beyond_sync_interval": 4 * m,
+                        "maintenance_runs_during_bursts": 100 * m, "scheduler_steps": 100000 * m},
+                rule="bounded progress instead of unbounded liveness: (1) small programs and contention programs (one thread may be parked inside maintenance at a phase point "
+                     "while others issue > write-queue-size inserts) under the serialized scheduler: deadlock = unfinished threads but none runnable, livelock = step budget "
+                     "(20000 + 4000 x ops) exhausted; (2) single-threaded bursts of 10 x 384 un-synced operations in both housekeeping regimes (clock within / beyond the "
+                     "500 ms periodical-sync interval): more than 2 retries of one write op at the back-off hook, or no maintenance run at all, is a violation; (3) at every "
+                     "quiescence the maintenance flag must be clear and the queues drained by sync(). Non-trivial: a contention program or a burst; distinct by program "
+                     "fingerprint / (seed, round).",
+                assumptions=CON_ASSUMPTIONS + ["unbounded 'every call returns' is restated as bounded progress; a finite run cannot decide liveness beyond its bounds"],
+                watchdog_s=scale(tier, 900, 7200))
+
+
 def plan_for(pid, tier, seed, ncpu):
+    if pid == "C02":
+        return plan_c02(pid, tier, seed, ncpu)
+    if pid == "C09":
+        return plan_c09(pid, tier, seed, ncpu)
     if pid in SEQ:
         return plan_seq(pid, tier, seed, ncpu)
     if pid == "C15":
